@@ -270,7 +270,11 @@ pub fn run_slice(cases: Vec<Case>, driver: &Driver, rule: &str, exhaustive: bool
         }
         let r = run_impl(case);
         impl_replies.push(r);
-        all_ops.extend(case.ops.iter().cloned());
+        // "impl-only" cases are probes for the implementation's oracles alone (inputs on which the executable model, whose
+        // tokenizer is quadratic, would take minutes); they are not part of the correspondence
+        if !case.tag.starts_with("impl-only") {
+            all_ops.extend(case.ops.iter().cloned());
+        }
     }
     let n = cases.len();
     for k in 0..3.min(n) {
@@ -292,9 +296,12 @@ pub fn run_slice(cases: Vec<Case>, driver: &Driver, rule: &str, exhaustive: bool
     };
     let mut off = 0;
     for (case, imp) in cases.iter().zip(impl_replies.iter()) {
-        let model = &model_all[off..off + case.ops.len()];
-        off += case.ops.len();
-        report.ops_compared += case.ops.len() as u64;
+        let impl_only = case.tag.starts_with("impl-only");
+        let model: &[String] = if impl_only { &imp[..] } else { &model_all[off..off + case.ops.len()] };
+        if !impl_only {
+            off += case.ops.len();
+            report.ops_compared += case.ops.len() as u64;
+        }
         if let Some(detail) = oracle_failure(case, imp) {
             report.failures.push(Failure {
                 kind: "oracle".into(),
